@@ -910,11 +910,14 @@ class PolyhedralTermList(TermList):  # noqa: WPS338
         Raises:
             ValueError: Constraints are likely unfeasible.
         """
-        if not self.terms:
-            # no constraint at all: every valuation is a behaviour, and a non-zero objective is unbounded over them
+        this, unsatisfiable = self._split_variable_free_terms()
+        if unsatisfiable:
+            raise ValueError("Constraints are unfeasible")
+        if not this.terms:
+            # no constraint that mentions a variable: every valuation is a behaviour, and a non-zero objective is unbounded
             return None if any(coeff != 0 for coeff in objective.values()) else 0.0
         obj = PolyhedralTermList([PolyhedralTerm(variables=objective, constant=0)])
-        _, self_mat, self_cons, obj_mat, _ = PolyhedralTermList.termlist_to_polytope(self, obj)  # noqa: WPS236
+        _, self_mat, self_cons, obj_mat, _ = PolyhedralTermList.termlist_to_polytope(this, obj)  # noqa: WPS236
         polarity = 1
         if maximize:
             polarity = -1
